@@ -36,6 +36,7 @@ struct Op {
     int st = 1, at = 0, grp = 0; uint32_t ybits = 0; int meta = 0; int en = 0; int sigtype = 0;
     int sl[5] = {3, 3, 3, 3, 3};   // string lengths for defs (-1 = NULL pointer)
     int cold = 0;               // reads: 1 = execute on a fresh reader too
+    uint32_t dtx = 0;           // sig (misuse programs): raw data_type code passed instead of dt_code[dtype] (0 = none)
     int fw = -1; int64_t fb = 0; // engine B focus: stop after this op's fw-th backend write (+ fb bytes of the next); -1 = none
     std::string to_text() const;
     bool from_text(const std::string &line);
